@@ -180,6 +180,8 @@ type rendered struct {
 // renderScript builds the script file: the lines (optionally preceded by blank /
 // comment lines, which only count for the line number -- PadLaw in the spec), a
 // trailing probe line, and the archive.
+var longComment = "# " + strings.Repeat("long ", 14000)
+
 func renderScript(vocab []lineJ, script []int, arch string, rng *rand.Rand, withProbe bool) rendered {
 	var r rendered
 	var lines, plain []string
@@ -191,6 +193,11 @@ func renderScript(vocab []lineJ, script []int, arch string, rng *rand.Rand, with
 		}
 		for n := rng.Intn(3); n > 0; n-- {
 			lines = append(lines, padLines[rng.Intn(len(padLines))])
+			r.Padded = true
+		}
+		if rng.Intn(40) == 0 {
+			// a comment line of 70 KB (more than the default buffer of a line scanner): a line like any other
+			lines = append(lines, longComment)
 			r.Padded = true
 		}
 	}
